@@ -54,6 +54,7 @@ type loopCtx struct {
 	variant *Term // value of the decreases expression at the loop head (nil if none)
 	ord     int
 	count   int
+	locks   string // which mutexes were held (and how) when the loop was entered
 }
 
 type Frame struct {
